@@ -22,3 +22,19 @@ func VerifRlpPendingRelationship(pairs [][2]common.Address) interface{} {
 
 // VerifRlpStakingRecord wraps a Record into the unexported stakingRecord (whose EncodeRLP writes the trie value).
 func VerifRlpStakingRecord(r Record) interface{} { return &stakingRecord{record: r} }
+
+// VerifRlpPendingAdd adds (delegator, validator) to a pendingRelationship built by the functions above.
+func VerifRlpPendingAdd(p interface{}, d, v common.Address) { p.(*pendingRelationship).Add(d, v) }
+
+// VerifRlpPendingCopy is pendingRelationship.DeepCopy.
+func VerifRlpPendingCopy(p interface{}) interface{} { return p.(*pendingRelationship).DeepCopy() }
+
+// VerifRlpPendingList returns the (delegator, validator) pairs in the order the relationship keeps them.
+func VerifRlpPendingList(p interface{}) [][2]common.Address {
+	var out [][2]common.Address
+	for _, bi := range p.(*pendingRelationship).r {
+		d, v := bi.Split()
+		out = append(out, [2]common.Address{d, v})
+	}
+	return out
+}
